@@ -18,7 +18,7 @@ def driver_of(cfg):
     return 'queue_kirsch'
 
 
-def run_queues(ctx, jobs, pb, max_exec, mode='dfs', runs=0, nsh=14, tagx=''):
+def run_queues(ctx, jobs, pb, max_exec, mode='dfs', runs=0, nsh=14, tagx='', per_driver=None):
     """jobs: program strings (config first). Grouped by driver, explored in shards, validated against Queue_Hist."""
     import random
     by = {}
@@ -30,10 +30,11 @@ def run_queues(ctx, jobs, pb, max_exec, mode='dfs', runs=0, nsh=14, tagx=''):
         n = max(1, min(nsh, len(js) // 4 + 1))
         for i in range(n):
             tasks.append((drv, '%s%s_%s_%d' % (tagx, drv, mode, i), js[i::n]))
-    xs = run_parallel([lambda t=t: explore(ctx, t[1], t[0], t[2], mode=mode, pb=pb, max_exec=max_exec, runs=runs) for t in tasks], maxw=14)
+    pd = per_driver or {}
+    xs = run_parallel([lambda t=t: explore(ctx, t[1], t[0], t[2], mode=mode, pb=pb, max_exec=pd.get(t[0], max_exec), runs=runs) for t in tasks], maxw=14)
 
     def tv(x):
-        res = check_histories(ctx, x['name'], x['driver'], 'Queue_Hist', HCONSTS, x)
+        res = check_histories(ctx, x['name'], x['driver'], 'Queue_Hist', HCONSTS, x, known_preds=['C06_HeadTagBump'] if x['driver'] == 'queue_kirsch' else ())
         add_tv_stats(res, [x])
     run_parallel([lambda x=x: tv(x) for x in xs], maxw=8)
     return xs
